@@ -23,7 +23,7 @@ def cases(run: Run):
     out = list(corpus(PID))
     for _ in range(run.n(6, 50)):
         dt = rng.choice([60, 60, 30, 120])
-        outk = rng.choice([1, 1, 2, 3])
+        outk = rng.choice([1, 1, 2, 3, 4])
         span_steps = rng.randint(2, 5)
         total = rng.randint(2, 8)
         # how the run is split into consecutive propagateTo calls
@@ -39,6 +39,11 @@ def cases(run: Run):
                     "truth_only": rng.random() < 0.25, "start_sec": rng.choice([0, 0, 9, 30]), "seed": rng.randint(1, 10**6), "events": events})
     # the shape that needs care: run past the configured stop with output_step = 2 dt
     out.append({"dt": 60, "out": 120, "span": 120, "steps": 6, "cuts": [3], "ns": 1, "nt": 2, "truth_only": False, "start_sec": 0, "seed": 7})
+    # ... and with an output step of several physics steps, the configured stop inside a save interval and the run going well past it: rows written at
+    # the steps between two saves (observations, tasks) must still find their epochs
+    k = rng.choice([3, 4, 5])
+    out.append({"dt": 60, "out": 60 * k, "span": 60 * rng.randint(1, k - 1) + 60 * k * rng.choice([0, 1]), "steps": 2 * k + rng.randint(1, k), "cuts": rng.choice([[], [k + 1]]),
+                "ns": 1, "nt": 2, "truth_only": False, "start_sec": 0, "seed": rng.randint(1, 999)})
     return out
 
 
